@@ -6,7 +6,9 @@ import sys
 import time
 
 ROOT = os.path.dirname(os.path.dirname(os.path.abspath(__file__)))
-EVIDENCE = os.path.join(ROOT, "evidence")
+# VERIF_EVIDENCE_DIR: used by tools/try_seed.sh so that runs against a deliberately broken tree do not overwrite the
+# evidence of the real one
+EVIDENCE = os.environ.get("VERIF_EVIDENCE_DIR") or os.path.join(ROOT, "evidence")
 REPLAYS = os.path.join(EVIDENCE, "replays")
 KNOWN = os.path.join(ROOT, "known_findings.json")
 
